@@ -1315,7 +1315,8 @@ class Stage:
     @property
     def _transcribed(self):
         if not self.is_transcribed:
-            self.master._transcribe()
+            # Transcribes a copy of the master (or rejects an outdated copy); never the user's own declaration
+            self.master._transcribed
         if self._is_original:
             return self._augmented 
         else:
